@@ -3,7 +3,8 @@ source tree, written to coq/gen/C02Keys.v.
 
 What is read (Python ast, nothing is imported or executed):
   tls.py      hkdf_label, hkdf_expand_label, hkdf_extract, cipher_suite_hash, CIPHER_SUITES, CipherSuite
-  crypto.py   INITIAL_SALT_VERSION_1/2, INITIAL_CIPHER_SUITE, derive_key_iv_hp, next_key_phase, CryptoPair.setup_initial
+  crypto.py   INITIAL_SALT_VERSION_1/2, INITIAL_CIPHER_SUITE, derive_key_iv_hp, next_key_phase, apply_key_phase,
+              CryptoPair.setup_initial
   packet.py   RETRY_AEAD_KEY/NONCE_VERSION_1/2, QuicProtocolVersion, get_retry_integrity_tag
 
 Fail closed, in two ways:
@@ -130,6 +131,12 @@ PINNED = {
         "    crypto.setup(cipher_suite=self.cipher_suite, secret=hkdf_expand_label(algorithm, self.secret, label, _hole_, "
         "algorithm.digest_size), version=self.version)\n"
         "    return crypto",
+    (CRYPTO, "apply_key_phase"):
+        "def apply_key_phase(self, crypto, trigger):\n"
+        "    self.aead = crypto.aead\n"
+        "    self.key_phase = crypto.key_phase\n"
+        "    self.secret = crypto.secret\n"
+        "    self._setup_cb(trigger)",
     (CRYPTO, "CryptoPair.setup_initial"):
         "def setup_initial(self, cid, is_client, version):\n"
         "    if is_client:\n"
@@ -180,6 +187,7 @@ HOLES = {
         ("DK_V1_IV_LABEL", bytes), ("DK_V1_IV_CTX", bytes), ("DK_V1_IV_LEN", int),
         ("DK_V1_HP_LABEL", bytes), ("DK_V1_HP_CTX", bytes)],
     (CRYPTO, "next_key_phase"): [("KU_V2_LABEL", bytes), ("KU_V1_LABEL", bytes), ("KU_CTX", bytes)],
+    (CRYPTO, "apply_key_phase"): [],
     (CRYPTO, "CryptoPair.setup_initial"): [
         ("IN_CLIENT_RECV_LABEL", bytes), ("IN_CLIENT_SEND_LABEL", bytes),
         ("IN_SERVER_RECV_LABEL", bytes), ("IN_SERVER_SEND_LABEL", bytes),
